@@ -18,6 +18,7 @@ fn base(prop: &'static str) -> Cfg {
         obs_init: 2,
         direct: false,
         via_adapter: false,
+        late_stack: false,
         twin: false,
         prop,
     }
@@ -265,6 +266,31 @@ fn plans(prop: &str, tier: &str) -> Vec<Plan> {
                 }
             }
             out.push(Plan { name: "c12-dyninit-via-adapter", cfgs: via, depth: if q { 2 } else { 3 } });
+            // the second stage is stacked on a dynamic adapter that has already
+            // been polled (seen limits and source updates)
+            let mut late = Vec::new();
+            for lower_l in [Lim::Dyn(LimSrc::Obs), Lim::Dyn(LimSrc::Queue), Lim::DynInit(1, LimSrc::Queue)] {
+                for lower in hts(lower_l) {
+                    for upper in [StageKind::Filter, StageKind::Head(Lim::Static(1)), StageKind::Tail(Lim::Static(2)), StageKind::Skip(Lim::Static(1))] {
+                        for batched in fl {
+                            for init in if q { vec![vec![0u8, 1, 1]] } else { vec![vec![1u8, 0], vec![0, 1, 1]] } {
+                                for direct in [false, true] {
+                                    if direct && matches!(lower, StageKind::Tail(_)) {
+                                        continue;
+                                    }
+                                    let mut c = mk(vec![lower, upper], batched, &init, Alphabet::Reduced, 16);
+                                    c.via_adapter = true;
+                                    c.late_stack = true;
+                                    c.direct = direct;
+                                    c.max_limit = 3;
+                                    late.push(c);
+                                }
+                            }
+                        }
+                    }
+                }
+            }
+            out.push(Plan { name: "c12-late-stack", cfgs: late, depth: if q { 4 } else { 5 } });
             // length 3
             let mut len3 = Vec::new();
             let small: Vec<StageKind> = vec![
@@ -470,7 +496,7 @@ fn run_all<E: El>(cli: &ev::Cli) -> i32 {
     let require: Vec<&'static str> = match cli.prop.as_str() {
         "C09" => vec!["adapter_emitted_diff", "limit_items_consumed", "reset_through_adapter", "several_outputs_for_one_input", "adapter_stream_ended_with_source"],
         "C10" | "C11" => vec!["adapter_emitted_diff", "reset_through_adapter", "adapter_stream_ended_with_source"],
-        "C12" => vec!["initial_values_checked_at_every_stage", "adapter_emitted_diff", "direct_join_checked", "limit_items_consumed"],
+        "C12" => vec!["initial_values_checked_at_every_stage", "adapter_emitted_diff", "direct_join_checked", "limit_items_consumed", "stacked_on_a_polled_adapter"],
         "C13" => vec!["twin_streams_compared", "multi_diff_source_batch", "adapter_emitted_diff", "reset_through_adapter"],
         "C14" => vec!["pending_then_woken_then_ready", "limit_items_consumed", "source_dropped_while_pending"],
         "C15" => vec!["limit_checked_after_single_diff", "view_full_again_after_making_room"],
